@@ -31,7 +31,11 @@ func (k *Kernel) setup() {
 	}
 	if needGoServer {
 		for _, s := range k.W.Services {
-			if err := s.Register(k.App, k.mux, hook); err != nil {
+			h := hook
+			if !p.Hook.AppliesTo(s.Name) {
+				h = nil
+			}
+			if err := s.Register(k.App, k.mux, h); err != nil {
 				panic(fmt.Sprintf("sim: Register%sServer: %v", s.Name, err))
 			}
 			if s.Mock != nil {
@@ -119,6 +123,9 @@ func (k *Kernel) goClient(c *CallState) {
 		return
 	}
 	c.Req = proto.Clone(req)
+	if k.Plan.SharedMsgs {
+		req = k.sharedMsg("req|"+c.Op.RPC, c.Op.ReqBin, req)
+	}
 	ci := c.Op.ClientIdx
 	if ci < 0 || ci >= len(k.clients) {
 		ci = 0
@@ -225,4 +232,19 @@ func RunPlan(t *testing.T, w *WorldDesc, p *Plan, keepLog bool) (k *Kernel) {
 		})
 	}()
 	return k
+}
+
+// sharedMsg returns the one instance shared by all calls with the same key and payload.
+func (k *Kernel) sharedMsg(key string, bin []byte, fresh proto.Message) proto.Message {
+	k.sharedMu.Lock()
+	defer k.sharedMu.Unlock()
+	if k.shared == nil {
+		k.shared = map[string]proto.Message{}
+	}
+	id := key + "|" + string(bin)
+	if m, ok := k.shared[id]; ok {
+		return m
+	}
+	k.shared[id] = fresh
+	return fresh
 }
